@@ -151,7 +151,11 @@ def programs(tier, seed):
     for i in range(k):
         n = rng.choice([3, 6, 10, 15, 20, 30, 40, 60] if tier == 'thorough' else [3, 8, 12, 20, 30, 45])
         depth = rng.choice([2, 4, 6, 8])
-        if i % 4 == 3:
+        if i % 9 == 5:
+            names, acs = T.rand_adf_colliding(rng, rng.choice([6, 8, 10]))
+        elif i % 9 == 7:
+            names, acs = T.rand_adf_structured(rng, rng.choice([260, 300, 400]))      # beyond one byte / one machine word of statements
+        elif i % 4 == 3:
             names = ['v%d' % j for j in range(n)]
             acs = {x: T.rand_clause(rng, names) for x in names}
         elif i % 3 == 2: names, acs = T.rand_adf_structured(rng, n)
